@@ -81,7 +81,7 @@ class A(Adapter):
         return acts[idx]
 
     # ---- wave 4 (hook of the C09 / C12 sweeps): declared specs vs the model's obsSpec (both leaves -- the 729-entry action_mask
-    # leaf is not in Gen/Specs.lean --, every configuration), reset timestep, observation arrays (toNValue layout),
+    # leaf included; Gen/Specs.lean holds it too --, every configuration), reset timestep, observation arrays (toNValue layout),
     # obsSpec.valid vs observation_spec.validate and the invariant SpecInv on implementation states at reset, along play (legal
     # moves and arbitrary in-spec moves) and on the terminal step (harness/wave3_routing.py; theorems sudoku_obsSpec_generated,
     # sudoku_*_obs_valid, sudoku_specInv_invariant, sudoku_obs_valid_along)
